@@ -38,8 +38,8 @@ Lemma skel_HTPsync : HTPsync_skel =
    "HP_write(file_rec,tbuf,ndds*12)"].                                                     (* sync_blocks *)
 Proof. reflexivity. Qed.
 Lemma skel_HTPcreate : HTPcreate_skel =
-  ["HTIfind_dd(file_rec,(uint16)1,(uint16)0,&dd_ptr,1)"; "HTInew_dd_block(file_rec)"; "else";
-   "HTIupdate_dd(file_rec,dd_ptr)"].                                                       (* create_dd *)
+  ["HTIfind_dd(file_rec,tag,ref,&dd_ptr,1)"; "HTIfind_dd(file_rec,(uint16)1,(uint16)0,&dd_ptr,1)";
+   "HTInew_dd_block(file_rec)"; "else"; "HTIupdate_dd(file_rec,dd_ptr)"].               (* has_dd; create_dd *)
 Proof. reflexivity. Qed.
 Local Close Scope string_scope.
 
@@ -146,6 +146,7 @@ Lemma op_put_mono fr tag ref len data e :
   forall fr' w, op_put fr tag ref len data = (fr', w) -> mono e fr fr' w.
 Proof.
   intros Hc Hn He Hl fr' w. unfold op_put.
+  destruct (has_dd fr tag ref); [intros H; inversion H; subst; apply mono_refl|].
   destruct (create_dd fr tag ref) as [[slot fr1] w1] eqn:C.
   pose proof (create_dd_mono fr tag ref e Hc Hn He _ _ _ C) as M1.
   destruct M1 as (A1 & B1 & C1 & D1).
@@ -193,6 +194,7 @@ Lemma op_app_mono fr tag ref chunks e :
   forall fr' w, op_app fr tag ref chunks = (fr', w) -> mono e fr fr' w.
 Proof.
   intros Hc Hn He fr' w. unfold op_app.
+  destruct (has_dd fr tag ref); [intros H; inversion H; subst; apply mono_refl|].
   destruct (create_dd fr tag ref) as [[slot fr1] w1] eqn:C.
   pose proof (create_dd_mono fr tag ref e Hc Hn He _ _ _ C) as M1.
   destruct chunks as [|c r].
